@@ -413,6 +413,19 @@ func (c *Child) Ask(line string) (string, bool) {
 	return c.readLine(120 * time.Second)
 }
 
+// AskT is Ask with its own time limit (the child is killed when it is exceeded)
+func (c *Child) AskT(line string, timeout time.Duration) (string, bool) {
+	if c.dead {
+		return "DEAD", false
+	}
+	if _, err := io.WriteString(c.in, line+"\n"); err != nil {
+		c.dead = true
+		c.cmd.Wait()
+		return "DEAD", false
+	}
+	return c.readLine(timeout)
+}
+
 func (c *Child) HTTP(method, path string, body []byte) (Resp, bool) {
 	ln, ok := c.Ask(fmt.Sprintf("H %s %s %s", method, api(path), hxs(body)))
 	if !ok {
